@@ -1,6 +1,6 @@
 From Coq Require Import List NArith Bool.
 From V.gen Require Consts.
-From V.C16 Require Import Model Proofs Obl Bound.
+From V.C16 Require Import Model Proofs Obl Bound Chan.
 Import ListNotations.
 Open Scope N_scope.
 From V.C16 Require Import Properties.
@@ -70,6 +70,19 @@ Check (C16_fair_terminates :
   (stuck (fst (run g s0 es1)) ->
    terminals q (snd (run g (st0 m) (es0 ++ es1))) = started q (es0 ++ es1) /\
    (started q (es0 ++ es1) <= 1)%nat)).
+Check (C16_bounded_channel :
+  forall g m cap es,
+  let b' := fst (brun g cap (b0 m) es) in
+  let rcv := snd (brun g cap (b0 m) es) in
+  let tk := taken g cap (b0 m) es in
+  b_st b' = fst (run g (st0 m) tk) /\
+  rcv ++ b_chan b' ++ b_back b' = filter is_event (snd (run g (st0 m) tk)) /\
+  (length (b_chan b') <= cap)%nat /\ (b_back b' <> [] -> length (b_chan b') = cap)).
+Check (C16_channel_drains :
+  forall g cap n b,
+  (1 <= cap)%nat -> bwf cap b -> (length (flight b) <= n)%nat ->
+  flight (fst (brun g cap b (repeat BRecv n))) = [] /\
+  snd (brun g cap b (repeat BRecv n)) = flight b).
 Check (C16_default_config :
   1 <= V.gen.Consts.PARALLELISM_FACTOR /\ 0 < V.gen.Consts.KAD_READ_TIMEOUT_SECS /\
   0 < V.gen.Consts.KAD_WRITE_TIMEOUT_SECS).
